@@ -408,6 +408,22 @@ struct Delivery {
 }
 
 pub fn run(scenario: u32, choices: &[u8], _strict: bool) -> Outcome {
+  run_mode(scenario, choices, false)
+}
+
+/// C06, scenario 5 (security build): the same victim and the same mixture of traffic, but every
+/// datagram is first injected in 1-3 byte-mutated forms (flips, length fields, truncation,
+/// insertion, splices) under C06's per-datagram monitors (panic hook, loop budget, allocation
+/// budget). Nothing is asserted about what the mutants deliver. Afterwards a second, well-behaved
+/// and fully key-exchanged peer, whose GUID prefix the hostile datagrams never carry, sends one
+/// exactly-right sample to every reader: it must arrive.
+pub fn run_hostile(choices: &[u8]) -> Outcome {
+  run_mode(0, choices, true)
+}
+
+const WELL_BEHAVED: u8 = 52;
+
+fn run_mode(scenario: u32, choices: &[u8], hostile: bool) -> Outcome {
   let mut c = Choices::new(choices);
   let mut o = Outcome::new();
   let _g = CaseGuard::new();
@@ -551,6 +567,38 @@ pub fn run(scenario: u32, choices: &[u8], _strict: bool) -> Outcome {
     }
   }
 
+  // ---------------------------------------------------------------- hostile mode: a second, well-behaved peer
+  let wp = rig::node_prefix(WELL_BEHAVED);
+  let mut pw_opt: Option<SecurityPlugins> = None;
+  if hostile {
+    let mut pw = SecurityPlugins::new(Box::new(StubAuth { local: 3 }), Box::new(StubAccess), Box::new(CryptographicBuiltin::new()));
+    pv.verif_set_handles(wp, 3, 3);
+    pw.verif_set_handles(wp, 3, 3);
+    pw.verif_set_handles(vp, 1, 1);
+    must(pw.register_local_participant(wp, None, participant_attributes()), "register_local_participant (well-behaved peer)");
+    must(pv.register_matched_remote_participant(wp, pair_secret(1, 3)), "register_matched_remote_participant (well-behaved peer)");
+    must(pw.register_matched_remote_participant(vp, pair_secret(1, 3)), "register_matched_remote_participant (well-behaved peer)");
+    let t = must(pw.create_local_participant_crypto_tokens(vp), "participant tokens");
+    must(pv.set_remote_participant_crypto_tokens(wp, t), "set participant tokens");
+    let t = must(pv.create_local_participant_crypto_tokens(wp), "participant tokens");
+    must(pw.set_remote_participant_crypto_tokens(vp, t), "set participant tokens");
+    for (i, e) in eps.iter().enumerate().filter(|(_, e)| e.is_reader) {
+      let lg = GUID::new(vp, e.local);
+      let wg = GUID::new(wp, e.remote);
+      let a = governed_attrs.as_ref().map(|g| g.endpoints[i].clone()).unwrap_or_else(|| endpoint_attrs(e.sub, e.payload));
+      must(pw.register_local_writer(wg, None, a), "register_local_writer (well-behaved peer)");
+      must(pv.register_matched_remote_writer_if_not_already(wg, lg), "register_matched_remote_writer (well-behaved peer)");
+      must(pw.register_matched_remote_reader_if_not_already(lg, wg, false), "register_matched_remote_reader (well-behaved peer)");
+      if !e.volatile {
+        let t = must(pw.create_local_writer_crypto_tokens(wg, lg), "writer tokens");
+        must(pv.set_remote_writer_crypto_tokens(wg, lg, t), "set writer tokens");
+        let t = must(pv.create_local_reader_crypto_tokens(lg, wg), "reader tokens");
+        must(pw.set_remote_reader_crypto_tokens(lg, wg, t), "set reader tokens");
+      }
+    }
+    pw_opt = Some(pw);
+  }
+
   // ---------------------------------------------------------------- the victim node
   let mut node = Node::new_with_plugins(0, Some(SecurityPluginsHandle::new(pv)));
   for e in eps.iter_mut() {
@@ -558,6 +606,9 @@ pub fn run(scenario: u32, choices: &[u8], _strict: bool) -> Outcome {
       let q = if e.stateless_like { rig::best_effort_qos() } else { rig::reliable_qos() };
       let slot = node.add_reader_with(e.local, &format!("c17_{}", e.name), &q, e.stateless_like, 64);
       node.reader_mut(slot).update_writer_proxy(rig::writer_proxy_for(GUID::new(lp, e.remote), rig::node_locator(PEER)), &q);
+      if hostile {
+        node.reader_mut(slot).update_writer_proxy(rig::writer_proxy_for(GUID::new(wp, e.remote), rig::node_locator(WELL_BEHAVED)), &q);
+      }
       e.slot = slot;
     } else {
       let slot = node.add_writer(e.local, "c17_user_writer", &rig::reliable_qos());
@@ -755,6 +806,111 @@ pub fn run(scenario: u32, choices: &[u8], _strict: bool) -> Outcome {
       deliveries.iter().map(|(d, _)| (eps[d.ep].name, d.explicit, d.payload, d.wrapper, if d.claimed_writer != eps[d.ep].remote { Some(d.claimed_writer) } else { None })).collect::<Vec<_>>()
     ));
 
+    // ---------------------------------------------------------------- hostile mode: mutants first
+    if hostile {
+      let variants = 1 + c.pick(3);
+      for v in 0..variants {
+        let mut hb = bytes.clone();
+        let mut recipe: Vec<&'static str> = Vec::new();
+        let walked = wire::walk(&hb).map(|(_, w)| w).unwrap_or_default();
+        for _ in 0..1 + c.pick(4) {
+          if hb.len() <= 24 {
+            break;
+          }
+          match c.weighted(&[6, 4, 2, 2, 2, 2]) {
+            0 => {
+              // one byte anywhere behind the RTPS header (the GUID prefix stays the hostile peer's)
+              let i = 20 + c.pick(hb.len() - 20);
+              hb[i] = c.byte();
+              recipe.push("byte");
+            }
+            1 => {
+              // the length field of a submessage header
+              if let Some(sub) = (!walked.is_empty()).then(|| &walked[c.pick(walked.len())]) {
+                if sub.offset + 4 <= hb.len() {
+                  let l = [0u16, 1, 3, 4, 16, 20, 23, 24, 40, 0x7fff, 0xffff, (hb.len() as u16).wrapping_sub(1)][c.pick(12)];
+                  let le = hb[sub.offset + 1] & 1 == 1;
+                  let lb = if le { l.to_le_bytes() } else { l.to_be_bytes() };
+                  hb[sub.offset + 2] = lb[0];
+                  hb[sub.offset + 3] = lb[1];
+                  recipe.push("length");
+                }
+              }
+            }
+            2 => {
+              let cut = 20 + c.pick(hb.len() - 20);
+              hb.truncate(cut);
+              recipe.push("truncate");
+            }
+            3 => {
+              let at = 20 + c.pick(hb.len() - 20);
+              let n = 1 + c.pick(24);
+              let ins = c.bytes(n);
+              hb.splice(at..at, ins);
+              recipe.push("insert");
+            }
+            4 => {
+              // a 32-bit field inside a secure submessage (transformation kind, key id, session id,
+              // content length, MAC count) gets a boundary value
+              if let Some(sub) = walked.iter().filter(|x| (0x30..=0x34).contains(&x.kind)).nth(0) {
+                let field = sub.offset + 4 + 4 * c.pick(8);
+                if field + 4 <= hb.len() {
+                  let val = [0u32, 1, 2, 0x100, 0x7fff_ffff, 0x8000_0000, 0xffff_fffe, 0xffff_ffff][c.pick(8)];
+                  let vb = if c.bool() { val.to_le_bytes() } else { val.to_be_bytes() };
+                  hb[field..field + 4].copy_from_slice(&vb);
+                  recipe.push("secure-field");
+                }
+              }
+            }
+            _ => {
+              // splice: the tail of this datagram behind the head of itself again
+              let at = 20 + c.pick(hb.len() - 20);
+              let tail = hb[at..].to_vec();
+              hb.extend_from_slice(&tail);
+              recipe.push("splice");
+            }
+          }
+        }
+        if hb.len() >= 20 && hb[8..20] == wp.bytes {
+          hb[8] ^= 0xff;
+        }
+        let len = hb.len();
+        let tick_budget = 2_000 + 64 * len as u64;
+        let base = hooks::alloc_stats().map(|s| s.live).unwrap_or(0);
+        hooks::alloc_reset_peak();
+        hooks::tick_reset(tick_budget);
+        node.mr.handle_received_packet(&Bytes::copy_from_slice(&hb));
+        let ticks = hooks::ticks();
+        hooks::tick_disarm();
+        while node.acknack_rx.try_recv().is_ok() {}
+        if ticks > tick_budget {
+          o.violate("c06.tick-budget", &format!("secure:{}", recipe.join("+")), format!("datagram {dgno} mutant {v} ({len} bytes): {ticks} loop iterations (budget {tick_budget}); bytes={}", super::hex(&hb[..len.min(200)])));
+          o.sample = sample;
+          return o;
+        }
+        if let Some(st) = hooks::alloc_stats() {
+          let over = st.peak.saturating_sub(base);
+          let budget = (1usize << 20) + 256 * len;
+          if over > budget {
+            o.violate("c06.alloc-budget", &format!("secure:{}", recipe.join("+")), format!("datagram {dgno} mutant {v} ({len} bytes): peak allocation {over} bytes above the level before it (budget {budget}); bytes={}", super::hex(&hb[..len.min(200)])));
+            o.sample = sample;
+            return o;
+          }
+        }
+        for r in &recipe {
+          o.label(r);
+        }
+        if walked.iter().any(|x| (0x30..=0x34).contains(&x.kind)) {
+          o.label("mutant-of-a-protected-datagram");
+          nontrivial = true;
+        }
+      }
+      // the unmutated datagram keeps the protocol state moving; nothing is asserted about it here
+      node.mr.handle_received_packet(&Bytes::copy_from_slice(&bytes));
+      while node.acknack_rx.try_recv().is_ok() {}
+      let _ = hooks::capture_drain();
+      continue;
+    }
     // ---------------------------------------------------------------- inject and observe
     node.mr.handle_received_packet(&Bytes::copy_from_slice(&bytes));
     let mut acks: Vec<i64> = Vec::new();
@@ -879,6 +1035,65 @@ pub fn run(scenario: u32, choices: &[u8], _strict: bool) -> Outcome {
       }
     }
     let _ = hooks::capture_drain();
+  }
+  if let Some(pw) = pw_opt.as_ref() {
+    // ---------------------------------------------------------------- survival: the well-behaved peer
+    let wheader = parse(&wire::rtps_header((2, 4), [1, 0x12], &wp.bytes)).header;
+    for e in eps.iter().filter(|e| e.is_reader) {
+      let lg = GUID::new(vp, e.local);
+      let wg = GUID::new(wp, e.remote);
+      let mut plain_payload = vec![0, 1, 0, 0, 0x77];
+      plain_payload.extend((0..11u8).map(|i| i.wrapping_mul(29)));
+      let wire_payload = if e.payload != Prot::None { must(pw.encode_serialized_payload(plain_payload.clone(), &wg), "encode payload (well-behaved peer)").0 } else { plain_payload.clone() };
+      let (f, b) = wire::data_body(
+        true,
+        &wire::DataSpec {
+          reader_id: eid_bytes(e.local),
+          writer_id: eid_bytes(e.remote),
+          sn: 1,
+          inline_qos: None,
+          payload: Some(wire_payload),
+          key_flag: false,
+        },
+      );
+      let plain_sub = one_sub(&wp, wire::DATA, f, &b);
+      let subs: Vec<Submessage> = must(pw.encode_datawriter_submessage(plain_sub, &wg, &[lg]), "encode_datawriter_submessage (well-behaved peer)").into();
+      let msg = Message { header: wheader, submessages: subs };
+      let bytes = match pw.encode_message(msg.clone(), &wp, &[vp]) {
+        Ok(m) => serialize(&m),
+        Err(e) => panic!("C06/C17 rig: encode_message of the well-behaved peer: {e:?}"),
+      };
+      node.mr.handle_received_packet(&Bytes::copy_from_slice(&bytes));
+      while node.acknack_rx.try_recv().is_ok() {}
+      let tc = node.readers[e.slot].topic_cache.lock().unwrap();
+      let found = tc
+        .get_changes_in_range_best_effort(Timestamp::ZERO, Timestamp::INFINITE)
+        .find(|(_, cc)| cc.writer_guid == wg && i64::from(cc.sequence_number) == 1)
+        .map(|(_, cc)| match &cc.data_value {
+          crate::dds::ddsdata::DDSData::Data { serialized_payload } => {
+            let mut v = serialized_payload.representation_identifier.bytes.to_vec();
+            v.extend_from_slice(&serialized_payload.representation_options);
+            v.extend_from_slice(&serialized_payload.value);
+            v
+          }
+          other => format!("{other:?}").into_bytes(),
+        });
+      match found {
+        Some(p) if p.len() >= plain_payload.len() && p[..plain_payload.len()] == plain_payload[..] => {
+          o.label("survival-delivered");
+        }
+        Some(_) => {
+          o.violate("c06.survival-content", &format!("secure:{}", e.name), format!("{sample}: after the hostile datagrams the sample of a well-behaved, correctly protecting peer reached {} altered [rtps={rtps:?} sub={:?} payload={:?}]", e.name, e.sub, e.payload));
+          o.sample = sample;
+          return o;
+        }
+        None => {
+          o.violate("c06.survival-delivery", &format!("secure:{}", e.name), format!("{sample}: after the hostile datagrams the correctly protected sample of a well-behaved peer no longer reaches {} [rtps={rtps:?} sub={:?} payload={:?}]", e.name, e.sub, e.payload));
+          o.sample = sample;
+          return o;
+        }
+      }
+    }
   }
   o.label(match rtps {
     Prot::None => "rtps-none",
